@@ -297,6 +297,9 @@ func RouterAddress(r *core.Rand) rm.RouterAddress {
 		a.Style = []byte("ntcp2")
 	case 4:
 		a.Style = r.Bytes(1 + r.Pick(10))
+		if r.Chance(1, 6) { // the longest styles a 1-byte length can frame
+			a.Style = r.Bytes([]int{253, 254, 255}[r.Pick(3)])
+		}
 	case 5:
 		a.Style = []byte{}
 	default:
